@@ -20,6 +20,7 @@ FUNCTIONS = {
             'PlateSlicer.remove', 'PlateSlicer.fill_to', 'Plate.transfer', 'Plate.remove', 'Plate.fill_to',
             'Container.transfer', 'Plate.__getitem__'],
     'C11': ['Container.fill_to', 'Container._add', 'Container._self_add', 'Container.dilute'],
+    'C05': ['Container.create_solution', 'Unit.parse_concentration', 'Unit.parse_quantity', 'Unit.convert_from'],
     'C12': ['Container.create_solution_from', 'Unit.parse_concentration', 'Unit.parse_quantity'],
     'C04': ['Container.__init__', 'Container._self_add', 'Container._add', 'Container._transfer', 'Container.transfer',
             'Container._transfer_slice', 'Container.remove', 'Container.fill_to', 'Container.get_volume',
@@ -56,6 +57,8 @@ def tasks(tier, pid):
         t += [('sol', 'dilute', c) for c in SOL.OPS['dilute'].cases(tier)]
     if pid in ('C12', 'C03', 'C04'):
         t += [('sol', 'create_from', c) for c in SOL.OPS['create_from'].cases(tier)]
+    if pid in ('C05', 'C03', 'C04'):
+        t += [('sol', 'create_solution', c) for c in SOL.OPS['create_solution'].cases(tier)]
     if pid == 'C03':
         t.append(('float_bounded', 60 if tier == 'quick' else 2000))
     if pid == 'C10':
